@@ -111,7 +111,9 @@ type statSrc struct {
 	size int64
 }
 
-func (s statSrc) Stat() (os.FileInfo, error) { return &vnode{name: "src", data: make([]byte, s.size)}, nil }
+func (s statSrc) Stat() (os.FileInfo, error) {
+	return &vnode{name: "src", data: make([]byte, s.size)}, nil
+}
 
 func makeSrc(kind string, data []byte, consumed *int) io.Reader {
 	br := bytes.NewReader(data)
@@ -132,16 +134,16 @@ func makeSrc(kind string, data []byte, consumed *int) io.Reader {
 // ---- backends
 
 type fileBackend struct {
-	o     fileOpts
-	t     testing.TB
-	tr    *tracer
-	pr    *peer
-	sess  *srvSession
-	cl    *Client
-	root  string
-	stop  chan struct{}
-	c2s   *bpipe
-	s2c   *bpipe
+	o    fileOpts
+	t    testing.TB
+	tr   *tracer
+	pr   *peer
+	sess *srvSession
+	cl   *Client
+	root string
+	stop chan struct{}
+	c2s  *bpipe
+	s2c  *bpipe
 }
 
 func newFileBackend(t testing.TB, tr *tracer, o fileOpts, content []byte, bad []int, seed int64) *fileBackend {
